@@ -321,7 +321,9 @@ def expand(ctx, path, out, depth=0):
         cmd, _, rest = d.partition(" ")
         rest = rest.strip()
         if cmd == "include":
+            saved_mode, saved_source = ctx.contracts_only, ctx.source
             expand(ctx, os.path.join(VERIF, rest), out, depth + 1)
+            ctx.contracts_only, ctx.source = saved_mode, saved_source  # `//@ mode` / `//@ source` inside an include do not leak out
         elif cmd == "source":
             ctx.source = rest
         elif cmd == "mode":
